@@ -1295,12 +1295,34 @@ REUSE_EQS = [          # (label, tree) — equations whose results have differen
     ("named ab", ("op", "add", ("el", "nab", d_nvec("ab")), ("el", "nab2", d_nvec("ab")))),
     ("named abc", ("op", "mul", ("el", "nabc", d_nvec("abc")), ("num", "3"))),
     ("scalar", ("op", "dot", ("el", "a2", d_vec(2)), ("el", "c2", d_vec(2)))),
+    # equal layout (length, kind of index), other index NAMES: disjoint, overlapping, permuted
+    ("named xyz", ("op", "sub", ("el", "nxyz", d_nvec("xyz")), ("el", "nxyz2", d_nvec("xyz")))),
+    ("named abd", ("op", "add", ("el", "nabd", d_nvec("abd")), ("num", "2.0"))),
+    ("named cab", ("op", "div", ("el", "ncab", d_nvec("cab")), ("el", "ncab2", d_nvec("cab")))),
+    ("named xy", ("op", "mul", ("el", "nxy", d_nvec("xy")), ("el", "nxy2", d_nvec("xy")))),
+    ("named ba", ("op", "add", ("el", "nba", d_nvec("ba")), ("num", "-1.5"))),
+    ("named words", ("op", "add", ("el", "nw", d_nvec(["east", "central", "coast"])), ("el", "nw2", d_nvec(["east", "central", "coast"])))),
+    ("vec3 b", ("op", "mul", ("el", "b3", d_vec(3)), ("num", "3"))),
+    ("mat22 b", ("op", "add", ("el", "N22", d_mat(2, 2)), ("num", "0.5"))),
 ]
+REUSE_AGGS = ["sum", "prod", "mean", "median", "std", "size", "rank:1", "rank:2", "rank:9"]
+
+
+def _first_leaf(t):
+    if t[0] == "el":
+        return t
+    if t[0] == "op":
+        return _first_leaf(t[2]) or _first_leaf(t[3])
+    if t[0] == "neg":
+        return _first_leaf(t[1])
+    return None
 
 
 def run_reuse(t1, t2):
-    """R.equation = t1, then R.equation = t2 on the SAME converter; then R is used as an operand (Q = R + R).
-    returns (line of R, values of R, line of Q, values of Q, exception text, leaf values)"""
+    """R.equation = t1, then R.equation = t2 on the SAME converter; then R is read, aggregated (every aggregate) and used
+    as an operand (Q = R + R, Q2 = R - first operand of t2).
+    returns (line of R, values of R, line of Q, values of Q, exception text, leaf values, extras)
+    extras: {"agg:<g>": value | ('err', …) | 'refused', "minus": values | None}"""
     both = ("op", "add", t1, t2)
     vals, leaves = tree_values(both)
     m = new_model()
@@ -1310,19 +1332,39 @@ def run_reuse(t1, t2):
         R.equation = tree_build(t1, els)
         R.equation = tree_build(t2, els)
         line, got = observe(R)
+        extras = {}
         if tree_depth(t2) and spec_tree(t2, vals)[0] == ():
             line, got = "scalar | " + fs_tokens(R._function_string), {(): safe_eval(R)}      # (R keeps the arrayed flag of the first equation)
+            return line, got, "none", None, None, vals, extras
         try:
             Q = m.converter("Q")
             Q.equation = R + R
             qline, qgot = observe(Q)
         except Exception as ex:
             qline, qgot = "none", None
-        return line, got, qline, qgot, None, vals
+        for g in REUSE_AGGS:
+            k = g.split(":")
+            try:
+                G = m.converter("G" + g.replace(":", "_"))
+                f = {"sum": R.arr_sum, "prod": R.arr_prod, "mean": R.arr_mean, "median": R.arr_median,
+                     "std": R.arr_stddev, "size": R.arr_size}.get(k[0])
+                G.equation = f() if f else R.arr_rank(int(k[1]))
+                extras["agg:" + g] = safe_eval(G)
+            except Exception as ex:
+                extras["agg:" + g] = "refused"
+        lf = _first_leaf(t2)
+        if lf is not None and is_arr(lf[2]) and set(vals[lf[1]]) == set(got):        # an operand with the result's shape and index names
+            try:
+                Q2 = m.converter("Q2")
+                Q2.equation = R - els[lf[1]]
+                extras["minus"] = (lf[1], observe(Q2)[1])
+            except Exception as ex:
+                extras["minus"] = (lf[1], None)
+        return line, got, qline, qgot, None, vals, extras
     except pyfrag.Unsupported:
         raise
     except Exception as ex:
-        return "none", None, "none", None, f"{type(ex).__name__}: {ex}", vals
+        return "none", None, "none", None, f"{type(ex).__name__}: {ex}", vals, {}
 
 
 def run_object_reuse(t, salt=0):
@@ -1360,6 +1402,49 @@ def plot_values(R):
     return out, None
 
 
+def reuse_verdict(l1, t1, l2, t2):
+    """first thing wrong after R.equation = t1; R.equation = t2 — (size, text, step) or None — and the number of aggregates read"""
+    import numpy as np
+    line, got, qline, qgot, exc, vals, extras = run_reuse(t1, t2)
+    fresh = run_tree(t2)
+    if fresh[0] == "none" or line == "none":
+        return None, 0
+    shape2, named2, exp = spec_tree(t2, vals)
+    exp = {k: float(v) for k, v in exp.items()}
+    txt = f"R.equation = {tree_show(t1)} ({l1}), then R.equation = {tree_show(t2)} ({l2})"
+    if shape2 == ():
+        return (None if close(got.get(()), exp[()], False) else (10, f"{txt}: R evaluates to {got.get(())!r}, numpy gives {exp[()]}", "read")), 0
+    dd = compare_values(got, exp, exact=False)
+    if dd is not None:
+        what = f"R has the entries {dd[1]}, numpy's result has {dd[2]}" if dd[0] == "keys" else f"element {dd[0]} evaluates to {dd[1]!r}, numpy gives {dd[2]}"
+        return (10 + len(got), f"{txt}: {what}", "read"), 0
+    if line != fresh[0]:
+        return (50, f"{txt}: the equations of R differ from those on a fresh converter ({line[:60]}… vs {fresh[0][:60]}…)", "read"), 0
+    if qgot is None:
+        return (61, f"{txt}, then Q = R + R is refused", "Q=R+R"), 0
+    q2 = compare_values(qgot, {k: 2.0 * v for k, v in exp.items()}, exact=False)
+    if q2 is not None:
+        return (60, f"{txt}, then Q = R + R: {q2}", "Q=R+R"), 0
+    dres = (d_nvec([k[0] for k in sorted(exp)]) if named2 else d_vec(shape2[0])) if len(shape2) == 1 else d_mat(*shape2)
+    n = 0
+    for g in REUSE_AGGS:
+        with np.errstate(all="ignore"):
+            want = spec_agg(g, dres, exp)
+        gotg = extras.get("agg:" + g)
+        n += 1
+        if gotg == "refused" or not close(gotg, want, exact=False):
+            return (62, f"{txt}, then R.arr_{g}: {gotg!r}, numpy gives {want}", "agg:" + g), n
+    mn = extras.get("minus")
+    if mn is not None:
+        lfv = {k: float(v) for k, v in vals[mn[0]].items()}
+        if mn[1] is None:
+            return (63, f"{txt}, then Q2 = R - {mn[0]} (same shape and index names as the result) is refused", "minus"), n
+        d3 = compare_values(mn[1], {k: exp[k] - lfv.get(k, float('nan')) for k in exp}, exact=False)
+        if d3 is not None:
+            return (63, f"{txt}, then Q2 = R - {mn[0]}: {d3}", "minus"), n
+    return None, n
+
+
 def run_surfaces(chk, note_violation, facts):
     """streams for the rows of the wave-7 coverage table that the main streams do not reach"""
     import numpy as np
@@ -1367,28 +1452,15 @@ def run_surfaces(chk, note_violation, facts):
     # -- result re-use: the target already holds the sub-elements of an earlier equation
     for l1, t1 in REUSE_EQS:
         for l2, t2 in REUSE_EQS:
-            line, got, qline, qgot, exc, vals = run_reuse(t1, t2)
-            fresh = run_tree(t2)
             rows["target re-used (first/second equation)"] = rows.get("target re-used (first/second equation)", 0) + 1
             chk.case(("reuse", l1, l2), nontrivial=True)
-            rep = {"kind": "reuse", "first": t1, "second": t2}
-            if fresh[0] == "none" or line == "none":
-                continue
-            _, _, exp = spec_tree(t2, vals)
-            exp = {k: float(v) for k, v in exp.items()}
-            dd = compare_values(got, exp, exact=False) if l2 != "scalar" else (None if close(got.get(()), exp[()], False) else ([], got.get(()), exp[()]))
-            txt = f"R.equation = {tree_show(t1)} ({l1}), then R.equation = {tree_show(t2)} ({l2})"
-            if dd is not None:
-                what = f"R has the entries {dd[1]}, numpy's result has {dd[2]}" if dd[0] == "keys" else f"element {dd[0]} evaluates to {dd[1]!r}, numpy gives {dd[2]}"
-                note_violation("wrong-value:result-reuse", 10 + len(got), f"{txt}: {what}", dict(rep, observed=repr(dd[1]), expected=dd[2]))
-            elif line != fresh[0] and l2 != "scalar":
-                note_violation("wrong-value:result-reuse", 50, f"{txt}: the equations of R differ from those on a fresh converter ({line[:60]}… vs {fresh[0][:60]}…)", rep)
-            elif l2 != "scalar" and qgot is not None:
-                q2 = compare_values(qgot, {k: 2.0 * v for k, v in exp.items()}, exact=False)
-                if q2 is not None:
-                    note_violation("wrong-value:result-reuse", 60, f"{txt}, then Q = R + R: {q2}", dict(rep, then="Q=R+R"))
-            elif l2 != "scalar" and qgot is None:
-                note_violation("wrong-value:result-reuse", 61, f"{txt}, then Q = R + R is refused", dict(rep, then="Q=R+R"))
+            prob, nagg = reuse_verdict(l1, t1, l2, t2)
+            rows["aggregates of a re-used target"] = rows.get("aggregates of a re-used target", 0) + nagg
+            if {l1, l2} <= {"named abc", "named xyz", "named abd", "named cab", "named words", "named ab", "named xy", "named ba"} and l1 != l2 \
+                    and len(dict(REUSE_EQS)[l1][2][2][1]) == len(dict(REUSE_EQS)[l2][2][2][1]):
+                rows["target re-used, equal layout, other index names"] = rows.get("target re-used, equal layout, other index names", 0) + 1
+            if prob is not None:
+                note_violation("wrong-value:result-reuse", prob[0], prob[1], {"kind": "reuse", "first": t1, "second": t2, "then": prob[2]})
     # -- the same operator OBJECT in several equations (first vs second use of the object)
     rng = chk.rng.fork("c10-objreuse")
     tg = TGen(rng, bad=0)
@@ -1534,6 +1606,15 @@ def probe():
         facts["target_reset_on_arrayed_assignment"] = r_[1] is not None and sorted(r_[1]) == [("0",), ("1",)]
     except Exception:
         facts["target_reset_on_arrayed_assignment"] = False
+    # … and the key SET of the target equals the key set of the equation also when the layout stays the same
+    try:
+        eqs = dict(REUSE_EQS)
+        r_ = run_reuse(eqs["named abc"], eqs["named xyz"])
+        r2_ = run_reuse(eqs["named abc"], eqs["named abd"])
+        facts["target_keys_equal_equation_keys"] = (r_[1] is not None and sorted(r_[1]) == [("x",), ("y",), ("z",)]
+                                                    and r2_[1] is not None and sorted(r2_[1]) == [("a",), ("b",), ("d",)])
+    except Exception:
+        facts["target_keys_equal_equation_keys"] = False
     return facts
 
 
@@ -1560,12 +1641,16 @@ def gen_lean(facts, dim_rows=()):
                "/-- probed: a Constant target drops an operator equation and keeps 0 (known finding constant-target-operator-dropped) -/\n"
                "def kindCfg : KindCfg := { constantKeepsEquation := false }\n"
                "theorem target_kinds_violated : ¬ C10_target_kinds kindCfg := C10_target_kinds_witness kindCfg (by decide)\n")
-            + ("def tgtCfg : TgtCfg := { resetTarget := true }\n"
-               "theorem target_holds : C10_target_full tgtCfg := C10_target_full_of_good tgtCfg (by decide)\n#print axioms target_holds\n"
-               if facts.get("target_reset_on_arrayed_assignment") else
-               "/-- probed: an arrayed equation ADDS to the sub-elements its target already has -/\n"
-               "def tgtCfg : TgtCfg := { resetTarget := false }\n"
-               "theorem target_violated : ¬ C10_target_full tgtCfg := C10_target_witness tgtCfg (by decide)\n#print axioms target_violated\n")
+            + (("def tgtCfg : TgtCfg := { resetTarget := true, resetSameLayout := true }\n"
+                "theorem target_holds : C10_target_full tgtCfg := C10_target_full_of_good tgtCfg (by decide) (by decide)\n#print axioms target_holds\n")
+               if facts.get("target_reset_on_arrayed_assignment") and facts.get("target_keys_equal_equation_keys") else
+               ("/-- probed: an arrayed equation ADDS to the sub-elements its target already has -/\n"
+                "def tgtCfg : TgtCfg := { resetTarget := false, resetSameLayout := false }\n"
+                "theorem target_violated : ¬ C10_target_full tgtCfg := C10_target_witness tgtCfg (by decide)\n#print axioms target_violated\n")
+               if not facts.get("target_reset_on_arrayed_assignment") else
+               ("/-- probed: the target is reset when its layout differs, but keeps its sub-elements (and their NAMES) when it has the layout of the new equation -/\n"
+                "def tgtCfg : TgtCfg := { resetTarget := true, resetSameLayout := false }\n"
+                "theorem target_violated : ¬ C10_target_full tgtCfg := C10_target_witness_layout tgtCfg (by decide)\n#print axioms target_violated\n"))
             + ("/-- probed: arrayed_term re-clones the operand with the asked index at every level -/\n"
                "def cfg : Cfg := { reindexAll := true }\n"
                "theorem holds_nested : C10_nested_full cfg := C10_nested_full_of_good cfg (by decide)\n#print axioms holds_nested\n"
@@ -2134,14 +2219,16 @@ def replay(path):
         return 1 if any(x[3] is not None for x in res) else 0
     if kind == "reuse":
         t1, t2 = _tup(r["first"]), _tup(r["second"])
-        line, got, qline, qgot, exc, vals = run_reuse(t1, t2)
-        _, _, exp = spec_tree(t2, vals)
-        exp = {k: float(v) for k, v in exp.items()}
-        print("R.equation =", tree_show(t1), "; then R.equation =", tree_show(t2)); print("R:", line[:200], got, exc); print("numpy:", exp)
-        if r.get("then"):
-            print("Q = R + R:", qline[:200], qgot)
-            return 1 if (qgot is None or compare_values(qgot, {k: 2.0 * v for k, v in exp.items()}, exact=False)) else 0
-        return 1 if compare_values(got, exp, exact=False) else 0
+        line, got, qline, qgot, exc, vals, extras = run_reuse(t1, t2)
+        print("R.equation =", tree_show(t1), "; then R.equation =", tree_show(t2)); print("R:", line[:200], got, exc)
+        try:
+            print("numpy:", {k: float(v) for k, v in spec_tree(t2, vals)[2].items()})
+        except Exception as ex:
+            print("numpy:", ex)
+        print("aggregates of R / R - operand:", extras)
+        prob, _ = reuse_verdict("first", t1, "second", t2)
+        print("verdict:", prob)
+        return 1 if prob is not None else 0
     if kind == "objreuse":
         t = _tup(r["tree"])
         l1, l2, g2, exc = run_object_reuse(t)
